@@ -234,6 +234,8 @@ type c03Obs struct {
 	ChallengeNegotiate bool   `json:"challengeNegotiate"`
 	InnerRan           bool   `json:"innerRan"`
 	IDIsSealed         bool   `json:"idIsSealed"`
+	IDRealmOK          bool   `json:"idRealmOK"` // authenticated, and the domain is the ticket's crealm
+	IDNameSrc          string `json:"idNameSrc"` // user name: "ticket" (the ticket's cname), "pac" (account name in the ticket's PAC), "other", ""
 	IDIsSessions       bool   `json:"idIsSessions"`
 	T0                 int64  `json:"t0"`
 	T1                 int64  `json:"t1"`
@@ -508,7 +510,9 @@ func (cw *c03world) runSequence(tw *traceWriter, s c01Settings, et int32, qs []c
 		}
 		if innerRan && innerID != nil {
 			if m != nil {
-				o.IDIsSealed = innerID.Authenticated() && innerID.UserName() == m.tktCName.PrincipalNameString() && innerID.Domain() == m.tktCRealm
+				o.IDRealmOK = innerID.Authenticated() && innerID.Domain() == m.tktCRealm
+				o.IDNameSrc = m.nameSrc(innerID.UserName())
+				o.IDIsSealed = o.IDRealmOK && o.IDNameSrc == "ticket"
 			}
 			o.IDIsSessions = sessName != "" && innerID.Authenticated() && innerID.UserName() == sessName && innerID.Domain() == sessRealm
 			// a session established by this request: remember its cookie and identity (the client's own session)
